@@ -202,21 +202,36 @@ class LocBuilder:
                 self.cases.append((d, a, [(0, (1 << 64) - 1, fixed[0][2], fixed[0][3])], False))
             else:
                 a.value = len(self.loc)
-                if self.v >= 5:
-                    for lo, hi, e, ops in fixed:
+                # base address selection entries (DW_LLE_base_address; the pair (-1, address) in .debug_loc) anywhere
+                # in the list -- in front, between entries, at the end: the entries given as offsets that follow one
+                # are relative to it, up to the next selection or the end of the list
+                cur = base
+                absolute = []
+                selections = 0
+                for j, (lo, hi, e, ops) in enumerate(fixed + [(None, None, None, None)]):
+                    if self.r.random() < 0.3:
+                        cur = self.r.choice([0x2000, 0x40000, 0x100, cur + 0x10000, 0x7f0000000000, base])
+                        selections += 1 if j > 0 else 0
+                        self.loc += (bytes([6]) + struct.pack("<Q", cur)) if self.v >= 5 else struct.pack("<QQ", (1 << 64) - 1, cur)
+                    if j == len(fixed):
+                        break
+                    if self.v >= 5:
                         c = self.r.randint(0, 2)
                         if c == 0:
-                            self.loc += bytes([4]) + uleb(lo) + uleb(hi) + uleb(len(e)) + e       # offset_pair (relative to CU base)
+                            self.loc += bytes([4]) + uleb(lo) + uleb(hi) + uleb(len(e)) + e       # offset_pair (relative to the base)
+                            absolute.append((cur + lo, cur + hi, e, ops))
                         elif c == 1:
                             self.loc += bytes([7]) + struct.pack("<QQ", base + lo, base + hi) + uleb(len(e)) + e   # start_end
+                            absolute.append((base + lo, base + hi, e, ops))
                         else:
                             self.loc += bytes([8]) + struct.pack("<Q", base + lo) + uleb(hi - lo) + uleb(len(e)) + e  # start_length
-                    self.loc += b"\0"
-                else:
-                    for lo, hi, e, ops in fixed:
+                            absolute.append((base + lo, base + hi, e, ops))
+                    else:
                         self.loc += struct.pack("<QQH", lo, hi, len(e)) + e
-                    self.loc += struct.pack("<QQ", 0, 0)
-                self.cases.append((d, a, [(base + lo, base + hi, e, ops) for lo, hi, e, ops in fixed], True))
+                        absolute.append((cur + lo, cur + hi, e, ops))
+                self.loc += b"\0" if self.v >= 5 else struct.pack("<QQ", 0, 0)
+                self.selections_inside = getattr(self, "selections_inside", 0) + (1 if selections and len(fixed) >= 2 else 0)
+                self.cases.append((d, a, absolute, True))
         secs = []
         if self.v >= 5:
             body = bytes(self.loc[4:])
@@ -361,6 +376,7 @@ def work_loc(task):
             f, secs, toff = b.build()
             try:
                 check_locs(drv, ev, f, secs, toff, b.cases, b, rnd, version, {"seed": seed, "index": i})
+                ev.labels["lists-with-a-base-selection-behind-the-first-entry"] = ev.labels.get("lists-with-a-base-selection-behind-the-first-entry", 0) + getattr(b, "selections_inside", 0)
             except DriverCrash as e:
                 ev.violations.append({"property": PID, "recipe": {"seed": seed, "index": i}, "reason": "driver crashed: " + e.report[-3000:],
                                       "signature": "C17:crash:" + e.request[:60]})
@@ -587,6 +603,7 @@ def main(tier, seed):
                                "operands that reference a type DIE may be reported as the DIE or as its (unit-relative or absolute) offset",
                                "the element of a single expression covers 0..0xffffffffffffffff; `address` of it is the set [0, 2^64-1) (the last address is not representable in an address set, C16)"],
                   health={"lists and expressions": ev.labels.get("loc:list", 0) > 100 and ev.labels.get("loc:expr", 0) > 100,
+                          "lists with a base address selection behind the first entry": ev.labels.get("lists-with-a-base-selection-behind-the-first-entry", 0) > 100,
                           "multi-range lists": sum(ev.labels.get("ranges:%d" % k, 0) for k in (2, 3, 5)) > 50,
                           "?OP_x checked": ev.labels.get("?OP_x", 0) > 100,
                           "shared tables": ev.labels.get("abbrev:shared-table", 0) > 20,
